@@ -336,12 +336,63 @@ fn from_reference(ty: &Ty, seen: &PV, kind: RKind, loc: &Path) -> RKind {
     kind
 }
 
+fn any_key(pv: &PV, f: &dyn Fn(&str) -> bool) -> bool {
+    match pv {
+        PV::Seq(s) => s.iter().any(|x| any_key(x, f)),
+        PV::Map(m) => m.iter().any(|(k, v)| f(k) || any_key(v, f)),
+        _ => false,
+    }
+}
+
+fn relation_only(e: &dv_core::entry::Entry, case: &Case, jf: fn(&PV) -> dv_core::entry::MsgOutcome, qf: fn(&PV) -> dv_core::entry::MsgOutcome, stats: Option<&mut Stats>) -> Verdict {
+    if any_key(&case.payload, &|k| k.contains('`')) {
+        return Verdict::Ok;
+    }
+    let inf = oracles::run(e, &case.payload, Src::Json, &Script::all_continue());
+    if inf.panicked.is_some() {
+        return Verdict::Ok;
+    }
+    let Some((kind, loc)) = inf.trace.iter().find_map(|ev| if let Event::Report { kind, loc, .. } = ev { Some((kind.clone(), loc.clone())) } else { None }) else {
+        return Verdict::Ok;
+    };
+    if loc.is_empty() || loc.iter().all(|s| matches!(s, Step::Key(k) if plain(k)) || matches!(s, Step::Index(_))) {
+        return Verdict::Ok;
+    }
+    let (Ok(Err(jm)), Ok(Err(qm))) = (jf(&case.payload), qf(&case.payload)) else { return Verdict::Ok };
+    let j = render_json(&loc);
+    let fx = facts(&kind, true);
+    if fx.strip.iter().any(|f| *f == j) || !jm.contains(&format!("`{j}`")) {
+        return Verdict::Ok; // another rendering style, or the path text coincides with a quoted fact: not judged
+    }
+    if let Some(st) = stats {
+        st.executions += 3;
+        st.class("non-plain keys: query path = JSON path without its leading dot");
+        st.nontrivial(&(case.ty, &case.payload));
+    }
+    let q = render_query(&loc);
+    if !qm.contains(&format!("`{q}`")) {
+        return Verdict::Violation(
+            "C14|QueryParamError|path-is-not-the-json-path-without-its-leading-dot".into(),
+            json!({"what": format!("JsonError names the place `{j}`; QueryParamError must name `{q}` (the same without the leading dot) but says {qm:?}"),
+                   "json_message": jm, "payload": case.payload.show()}),
+        );
+    }
+    Verdict::Ok
+}
+
 pub fn test(reg: &Reg, case: &Case, stats: Option<&mut Stats>) -> Verdict {
     let e = &reg.entries[case.ty];
-    if case.payload.has_dup_keys() || case.payload.has_nonfinite() || !payload_keys_plain(&case.payload) {
+    if case.payload.has_dup_keys() || case.payload.has_nonfinite() {
         return Verdict::Ok;
     }
     let (Some(jf), Some(qf)) = (e.json_err, e.query_err) else { return Verdict::Ok };
+    if !payload_keys_plain(&case.payload) {
+        // keys outside [A-Za-z0-9_] (empty, dotted, bracketed, non-ASCII ...): how such keys are rendered is not fixed
+        // by the statement, so only the RELATION between the two flavours is judged - "query parameters without the
+        // leading dot": where JsonError quotes the path in the plain `.key[i]` style, QueryParamError must quote
+        // the same text minus exactly one leading dot
+        return relation_only(e, case, jf, qf, stats);
+    }
     let inf = oracles::run(e, &case.payload, Src::Json, &Script::all_continue());
     if inf.panicked.is_some() {
         return Verdict::Ok;
@@ -400,7 +451,17 @@ pub fn run(tier: Tier) -> i32 {
     let reg = registry();
     let eligible: Vec<usize> =
         reg.all().into_iter().filter(|i| reg.entries[*i].json_err.is_some() && all_keys_plain(&reg.entries[*i].ty, 0)).collect();
-    let gen = case_gen(reg.clone(), eligible, GenOpts { plain_keys: true, blind: 0.05, min_fault: 0.1, ..GenOpts::default() });
+    let gen_plain = case_gen(reg.clone(), eligible.clone(), GenOpts { plain_keys: true, blind: 0.05, min_fault: 0.1, ..GenOpts::default() });
+    // one case in ten with arbitrary keys in maps (judged by the relation between the two flavours only)
+    let gen_any = case_gen(reg.clone(), eligible, GenOpts { blind: 0.05, min_fault: 0.15, ..GenOpts::default() });
+    let gen: dv_core::runner::GenFn = std::sync::Arc::new(move |rng| {
+        use rand::Rng;
+        if rng.random_range(0..10) == 0 {
+            gen_any(rng)
+        } else {
+            gen_plain(rng)
+        }
+    });
     drive(
         "C14",
         tier,
